@@ -187,7 +187,13 @@ OutSets == {{L("a", "T1", ""), L("", "T1", "")}, {L("a", "T1", "s"), L("", "T1",
             {L("a", "T1", ""), L("", "T1", ""), L("b", "T2", "")}, {L("a", "T1", ""), L("b", "T1", "")}}
 OutTargets == {<<L("b", "T1", "")>>, <<L("", "T1", "")>>, <<L("a", "T1", "")>>, <<L("a", "T1", ""), L("b", "T1", "")>>,
                <<L("b", "T1", ""), L("", "T1", "")>>, <<L("c", "T1", "s")>>}
-OutFamily == { Scn("out", F(t, <<>>), <<>>, <<F(<<>>, os)>>) : t \in OutTargets, os \in UNION {PermSeqs(S) : S \in OutSets} }
+\* two type-only results of ONE type that differ in their subtype: only the last declared one can be delivered (the results
+\* are mapped back by type alone); whoever asks for the other one is refused, never handed its sibling's value
+OutSets2 == {{L("", "T1", "s"), L("", "T1", "t")}, {L("", "T1", "s"), L("", "T1", "")}, {L("", "T1", "s"), L("", "T1", "t"), L("a", "T1", "s")}}
+OutTargets2 == {<<L("", "T1", "s")>>, <<L("", "T1", "t")>>, <<L("a", "T1", "s")>>, <<L("", "T1", "s"), L("", "T1", "t")>>, <<L("", "T1", "")>>}
+OutFamily2 == { Scn("out", F(t, <<>>), ins, <<F(<<>>, os)>>) : t \in OutTargets2, os \in UNION {PermSeqs(S) : S \in OutSets2},
+                  ins \in {<<>>, <<L("", "T1", "s")>>, <<L("", "T2", "")>>} }
+OutFamily == OutFamily2 \cup { Scn("out", F(t, <<>>), <<>>, <<F(<<>>, os)>>) : t \in OutTargets, os \in UNION {PermSeqs(S) : S \in OutSets} }
              \cup { Scn("out", F(t, <<>>), <<L("", "T3", "")>>, <<F(<<L("", "T3", "")>>, os)>>) : t \in OutTargets, os \in UNION {PermSeqs(S) : S \in OutSets} }
 
 -----------------------------------------------------------------------------
